@@ -2,7 +2,8 @@
 
 spec:  Malformed.tla (the requirement: outcome in {files, error} within bounded time; sites and edits of a JSON document),
        MalformedMC.tla (TLC enumerates every (family, base document, site, mutation): JSON Schema / OpenAPI documents, CUE
-       expressions x positions, pipeline / schema-transformation / builder-transformation YAML trees),
+       expressions x positions, pipeline / schema-transformation / builder-transformation YAML trees, hand-written types x
+       positions of a type tree, empty spellings x JSON Schema drafts),
        MalformedTrace.tla (TLC re-judges every recorded real outcome).
 real:  every case is the WHOLE real pipeline (codegen.PipelineFromFile + Run) in a worker subprocess under recover() and a
        20 s watchdog (worker `c04-run`), first without output languages (parsers, consolidation, common passes), then - when
@@ -26,14 +27,14 @@ from checks import semantics_common as sc
 from vlib import core
 
 FAMILIES = ("jsonschema", "openapi", "cue", "pipeline", "passes", "veneers", "sequences", "parameters", "cycles", "cyclepasses", "cycleveneers",
-            "veneerpaths", "ifexpr", "discriminators")
+            "veneerpaths", "ifexpr", "discriminators", "handtypes", "drafts")
 # small families whose cases are cheap: run completely in every tier
-DENSE = ("sequences", "parameters", "cycles", "cyclepasses", "cycleveneers", "veneerpaths", "ifexpr", "discriminators")
+DENSE = ("sequences", "parameters", "cycles", "cyclepasses", "cycleveneers", "veneerpaths", "ifexpr", "discriminators", "handtypes", "drafts")
 VALID_INPUT_FAMILIES = ("discriminators",)
 # how a family's document enters the pipeline
 KIND = {"jsonschema": "jsonschema", "openapi": "openapi", "cue": "cue", "pipeline": "whole", "parameters": "whole", "passes": "passes",
         "cyclepasses": "passes", "veneers": "veneers", "sequences": "veneers", "cycleveneers": "veneers", "veneerpaths": "veneers",
-        "ifexpr": "whole"}
+        "ifexpr": "whole", "handtypes": "passes", "drafts": "jsonschema"}
 TIMEOUT_MS = 20000             # CPU time of the worker process per run (wall time only bounds a blocked run: 15 x)
 CONFIRM_TIMEOUT_MS = 120000    # budget of the confirmation run of a timeout (alone, small stack cap)
 NPROC = 12
@@ -683,7 +684,7 @@ def run(ctx):
     per_fam_total = collections.Counter(c["fam"] for c in cases)
     cases.sort(key=lambda c: (c["fam"], c["base"], json.dumps(c.get("path", c.get("e"))), c.get("mut", 0), str(c.get("pos", "")), c.get("second", 0), c.get("t", 0),
                               c.get("n", 0), c.get("link", ""), c.get("entry", ""), c.get("lang", ""), str(c.get("kind", "")),
-                              c.get("sharing", ""), c.get("place", "")))
+                              c.get("sharing", ""), c.get("place", ""), c.get("carrier", ""), c.get("outer", ""), c.get("inner", ""), c.get("draft", "")))
     if quick:
         # seeded slice: every k-th case of each family, offset by the seed; the as-is documents always
         k = 12
@@ -789,6 +790,14 @@ def run(ctx):
         ctx.fail(sig, "%s: %s [%s stage %s; %d run(s); inputs: %s]" % (res[jid]["outcome"], str(what)[:200], c["fam"], stage, len(items),
                                                                        ", ".join("%s x%d" % kv for kv in kws.most_common(6))), rp)
 
+    if os.environ.get("VERIF_C04_DUMP_CASES"):      # maintenance aid (never used by registered commands): what ran and how it ended
+        with open(os.environ["VERIF_C04_DUMP_CASES"], "w") as df:
+            for jid, rec in sorted(res.items()):
+                c = by_cid[jid.split("|")[0]]
+                df.write(json.dumps({"job": jid, "fam": c["fam"], "class": c["class"], "keyword": c.get("keyword"), "path": c.get("path"),
+                                     "draft": c.get("draft"), "carrier": c.get("carrier"), "outer": c.get("outer"), "inner": c.get("inner"),
+                                     "filler": c.get("filler"), "outcome": rec["outcome"], "sig": signature(rec)[0],
+                                     "err": (rec.get("err") or "")[:300], "doc": jv(c["doc"]) if c.get("doc") and c["fam"] in ("drafts", "handtypes") else None}) + "\n")
     # ---- trace: TLC re-judges every recorded outcome
     tdir = ctx.sub("trace")
     tpath = os.path.join(tdir, "trace.ndjson")
@@ -822,7 +831,7 @@ def run(ctx):
     for fam in FAMILIES:
         if sum(per_fam[fam].values()) == 0:
             vac.append("family:" + fam)
-    for cls in ("absent", "ill-typed", "degenerate", "expression", "as-is", "bytes", "sequence", "environment", "cycle", "config-cycle", "path", "if-expression", "discriminator"):
+    for cls in ("absent", "ill-typed", "degenerate", "expression", "as-is", "bytes", "sequence", "environment", "cycle", "config-cycle", "path", "if-expression", "discriminator", "hand-written-type"):
         if sum(per_class[cls].values()) == 0:
             vac.append("class:" + cls)
     for lang in g.LANGS:
@@ -972,6 +981,13 @@ ASSUMPTIONS = [
     "OpenAPI 3.0, pipeline YAML, one file per schema transformation, one file per builder / option rule) removed, or replaced by every value of "
     "the family's alphabet (other JSON kinds; empty, negative, dangling, cyclic, tuple-form and wrong-keyword spellings); the reference-cycle "
     "documents as they stand; for CUE an alphabet of expressions at every structural position; quick runs a seeded 1/12 slice",
+    "hand-written types (family handtypes, complete in every tier): 27 fillers (a kind without its definition for each of the ten kinds, another "
+    "kind's definition, unknown / missing kind, definitions with missing or empty members, non-mappings, two well-formed controls) at every position "
+    "of a type tree (the type, array value, map INDEX, map value, struct field, disjunction branch, intersection branch), one level deep through "
+    "retype_field / retype_object / add_object / add_fields and two levels deep through retype_field",
+    "JSON Schema drafts (family drafts, complete in every tier): every container- or string-valued site of two documents that are valid under every "
+    "draft, replaced by the empty value of its kind, under `$schema` = draft-04, -06, -07, 2019-09, 2020-12 and without `$schema` (what the schema "
+    "compiler's meta-schema lets through to cog's parser differs per draft: an empty `enum` only reaches it under 2019-09 / 2020-12 / no `$schema`)",
     "arbitrary byte sequences cannot be enumerated by TLC: a seeded byte-level sample (truncation, bit flips, deletions, duplications, "
     "insertions) of the well-formed renderings is run on top and counted separately (sampling)",
     "output settings: first no output language (parsers, consolidation, transformations), then - only for cases on which that stage returns, since "
